@@ -1615,6 +1615,12 @@ class ContractionTree:
 
         # make sure all flops and size information has been populated
         tree.contract_stats()
+        # ... including which indices are involved at every node: this is
+        # computed lazily from the children legs, so it must be known *before*
+        # any node is modified below (nodes created with pre-computed legs,
+        # cost and size, e.g. by simulated annealing, don't have it yet)
+        for node in tree.children:
+            tree.get_involved(node)
 
         d = tree.size_dict[ind]
         if project is None:
